@@ -199,13 +199,15 @@ class Session:
     The description is loaded once, so a description edit needs a new session."""
 
     def __init__(self, ws, jobs=None, db=True, fs="default", buildfile="build.llbuild", keep_going=False,
-                 timeout=120):
+                 timeout=120, pretend=False):
         import tempfile
         self.ws = ws
         self.timeout = timeout
         cmd = [BSX, "--interactive", "--chdir", ws.dir, "-f", buildfile]
         if keep_going:
             cmd += ["--keep-going"]
+        if pretend:
+            cmd += ["--pretend-remove"]
         cmd += ["--db", "build.db"] if db else ["--no-db"]
         cmd += ["--serial"] if not jobs else ["-j", str(jobs)]
         if fs != "default":
